@@ -232,6 +232,40 @@ def chained_any_form(fx, rep, p, slf):
     return True
 
 
+def skip_while_any_form(fx, rep, p, slf):
+    """is_valid as `self.iter().take(50).skip_while(|r| <not Ok(Class)>).any(|r| <Ok(Field|Method)>)`: skip_while drops the items
+    before the first class record (and keeps everything from it on, inside the 50-item window); a class record is not a member, so
+    `any` over the rest is "a member after a class". Returns True when the body has this form."""
+    b = fx.bodies[p]
+    nxt = set(A.method(fx, "mapping::ProguardRecordIter", "next", trait="Iterator"))
+    sy = S.Sym(fx, inline_mut=True, opaque=lambda q: q in nxt)
+    try:
+        res = sy.eval_body(b)
+    except S.Undecidable:
+        return False
+    if sy.loop_order or len(res) != 1 or res[0][0].conds or res[0][0].effects:
+        return False
+    v = res[0][1][1]
+    window = ("call", "std::iter::Iterator::take", (iter_term(slf), lit_int(50)))
+    if not (v[0] == "quant" and v[1] == "any" and v[2][0] == "call" and v[2][1] == "std::iter::Iterator::skip_while" and len(v[2][2]) == 2
+            and v[2][2][0] == window and v[2][2][1][0] in ("closure", "fnref")):
+        return False
+    rep.fn(p)
+    import models as M_
+    x = ("bound", 0)
+    okx = mk_payload(x, "Ok", "0")
+    skip = M_.closure_term(sy, v[2][2][1], 1, S.St(), {"sp": "?"})
+    p1 = pred_equals(skip, lambda o: FALSE if (o(("is", x, "Ok")) and o(("is", okx, "Class"))) else TRUE)
+    p2 = pred_equals(v[3], lambda o: TRUE if (o(("is", x, "Ok")) and (o(("is", okx, "Field")) or o(("is", okx, "Method")))) else FALSE)
+    rep.check("C19.3", "C19.3/is_valid/per-record", p1 and p2, loc=F.short_file(b["sp"]),
+              found="skip_while(not Ok(Class)): %s; any(Ok(Field|Method)): %s" % (p1, p2),
+              expected="items before the first class record skipped, then a field or method record (a class record is neither)")
+    rep.ok("C19.3", "C19.3/is_valid/driver", loc=F.short_file(b["sp"]), found="one pipeline over %s" % S.tstr(window), nontrivial=False)
+    rep.ok("C19.3", "C19.3/is_valid/after-loop", loc=F.short_file(b["sp"]), found="false when the 50-item window is exhausted", nontrivial=False)
+    rep.ok("C19.3", "C19.3/is_valid/flag-init", loc=F.short_file(b["sp"]), found="no flag: skip_while is the flag", nontrivial=False)
+    return True
+
+
 def summary_ref(roles, flat):
     OKS = REC if flat else mk_payload(REC, "Ok", "0")
     hk = mk_payload(OKS, "Header", "key")
@@ -457,9 +491,14 @@ def run(ctx, rep):
                 # `for r in mapping.iter()` matching Ok(..) patterns, or `for r in mapping.iter().flatten()` matching bare records:
                 # Result's IntoIterator yields the Ok payload once and nothing for Err, so the element IS the Ok payload
                 want_drv = iter_term(("in", mparam))
-                flat = driver(L) == ("call", "std::iter::Iterator::flatten", (want_drv,))
+                drv_l = driver(L)
+                flat = drv_l == ("call", "std::iter::Iterator::flatten", (want_drv,))
+                if not flat and drv_l is not None and drv_l[0] == "call" and drv_l[1] == "std::iter::Iterator::filter_map" and len(drv_l[2]) == 2 \
+                        and drv_l[2][0] == want_drv:
+                    import builder_rules as BR_
+                    flat = BR_._is_result_ok(fx, drv_l[2][1])       # `.filter_map(Result::ok)`: the same Ok payloads
                 if flat:
-                    want_drv = ("call", "std::iter::Iterator::flatten", (want_drv,))
+                    want_drv = drv_l
                 OKS = REC if flat else mk_payload(REC, "Ok", "0")
                 hk = mk_payload(OKS, "Header", "key")
                 hv = mk_payload(OKS, "Header", "value")
@@ -515,6 +554,8 @@ def run(ctx, rep):
     if p and chained_any_form(fx, rep, p, slf):
         p = None
     if p and is_valid_try_fold_form(fx, rep, p, slf):
+        p = None
+    if p and skip_while_any_form(fx, rep, p, slf):
         p = None
     if p:
         r = loop_of(fx, rep, "C19.3", "C19.3/is_valid", p)
